@@ -873,6 +873,13 @@ impl Mode {
     }
 }
 
+pub fn ft_flags(m: Mode) -> freetype::face::LoadFlag {
+    m.freetype()
+}
+pub fn sk_target(m: Mode) -> Target {
+    m.skrifa()
+}
+
 pub fn ft_points(lib: &freetype::Library, data: &[u8], gid: u32, ppem: u32, mode: Mode) -> Option<Vec<(i64, i64, bool)>> {
     use freetype::face::LoadFlag;
     let face = lib.new_memory_face2(data.to_vec(), 0).ok()?;
